@@ -27,6 +27,10 @@ class PersistentWorker(Worker):
         if _results_pipe is None:
             raise ValueError('_results_pipe should not be None')
         self._results_pipe = _results_pipe
+        # normally (re)set by _init_child on the child side, but the child can be terminated before it gets there
+        # and its cleanup code still needs them
+        self._counter = 0
+        self._stop = False
         super().__init__(target, **kwargs)
         self._closed = False
 
